@@ -95,7 +95,7 @@ func newContractDB() *ContractDB {
 }
 
 var (
-	reFuncHdr   = regexp.MustCompile(`^func\s+(?:\(\s*(\w+)\s+(\*?)([\w.]+)\s*\)\s+)?(\w+(?:\$\d+)?)\s*$`)
+	reFuncHdr   = regexp.MustCompile(`^func\s+(?:\(\s*(\w+)\s+(\*?)([\w.]+)\s*\)\s+)?(\w+(?:\.\w+)*(?:\$\d+)?)\s*$`)
 	reLabel     = regexp.MustCompile(`^([A-Za-z_][A-Za-z0-9_]*):\s+(.*)$`)
 	rePure      = regexp.MustCompile(`^(pure|pred|uninterp)\s+(?:func\s+)?(?:\(\s*(\w+)\s+(\*?[\w.]+)\s*\)\s+)?(\w+)\s*\(([^)]*)\)\s*([\w.*\[\]]*)\s*(?:\{(.*)\}\s*)?$`)
 	reLoop      = regexp.MustCompile(`^loop\s+(\d+)\s+invariant\s+(.*)$`)
